@@ -8,8 +8,15 @@
   Auxiliary definitions used in statements (all in BklProofs/Lemmas/Merge.lean):
     `Val.isScalar`  — bool / int / flt / str
     `plainEntry`    — a list-patch entry carrying no list directive
+  and, for the recursive boundary of §10 (in BklProofs/Lemmas/C01Rejects.lean):
+    `dropRequired`  — a list minus its `"$required"` marker strings (Lemmas/Merge.lean)
+    `matchPatch`    — what a `$match` entry merges into a matched element (`$value`, else the
+                      entry minus `$match`)
+    `matchRel`      — one element before / after a `$match` entry is applied
+    `Pointwise`     — two lists related element by element
 -/
 import BklProofs.Lemmas.MergeWF
+import BklProofs.Lemmas.C01Rejects
 namespace Bkl
 
 /-! ## 1. a null child changes nothing -/
@@ -373,6 +380,611 @@ example : (∀ x ∈ [Val.map [("b", .int 2)], Val.map [("b", .int 3), ("c", .in
     · exact ⟨_, rfl, by decide, by decide⟩
   · simp [mergeChain, List.foldlM, merge, mergeMapMap, mergeFields, fhasBool, fget, fset,
       Val.toStr]
+    rfl
+
+/-! ## 10. the recursive accept / reject boundary
+
+`Rejects dst src` is written from the property text ("a child is rejected … exactly when an
+override is useless or inapplicable"), not from the code, and `C01_reject_iff` shows that it is
+*exactly* the set of inputs on which `merge` returns an error.
+
+Boundary facts that the model implements and that the predicate documents:
+* a `null` parent accepts everything, a `null` child is accepted by everything (it changes
+  nothing over a map or a list, and it *replaces* a scalar);
+* a scalar parent is replaced by any different child of any kind (scalar, null, list, map);
+* an **empty** map parent accepts a scalar or list child (`overMap` needs `d ≠ []`);
+* a list parent rejects every map child, **including the empty map** (`overList`);
+* a map patch carrying `$replace: true` replaces the parent map and is never rejected, whatever
+  is below it (all map constructors need `fhasBool s "$replace" true = false`); `$replace` with
+  any other value (`false`, a string, …) is an ordinary key;
+* a list patch containing the string `"$replace"` replaces the parent list and is never rejected,
+  not even if it also contains a malformed `{$replace: true, extra: …}` entry; without that string,
+  a `{$replace: true}` entry replaces the parent list, and *any* `$replace: true` entry with
+  extra keys is rejected (`listReplaceExtraKeys`) before any other entry is looked at;
+* otherwise the patch entries are applied left to right to the parent list minus its
+  `"$required"` marker strings (`dropRequired`); `RejectsEntries acc patch` describes that walk,
+  `acc` being the list built so far.  `$delete` has priority over `$match`; a `$match` entry
+  without `$value` merges *itself minus the `$match` key* into the matched elements (so extra
+  keys are legal there), see `matchPatch`.
+Every error class of the model's `merge` (`uselessOverride`, `invalidType`, `extraKeys`,
+`noMatchFound`) is covered by the property text, so there is no `otherInvalid…` constructor. -/
+
+mutual
+/-- `Rejects dst src`: the child `src` cannot be layered on the parent `dst`. -/
+inductive Rejects : Val → Val → Prop
+  /-- the same scalar value -/
+  | sameScalar {v : Val} : v.isScalar = true → Rejects v v
+  /-- a scalar or a list over a non-empty map -/
+  | overMap {d : Fields} {s : Val} :
+      d ≠ [] → (s.isScalar = true ∨ s.isList = true) → Rejects (.map d) s
+  /-- a scalar or a map (even an empty one) over a list -/
+  | overList {d : List Val} {s : Val} :
+      (s.isScalar = true ∨ s.isMap = true) → Rejects (.list d) s
+  /-- `k: $delete` for a key the parent does not have -/
+  | mapDeleteAbsent {d s : Fields} {k : String} :
+      fhasBool s "$replace" true = false →
+      fget s k = some (.str "$delete") → fget d k = none → Rejects (.map d) (.map s)
+  /-- a key present on both sides whose child value is rejected by the parent value -/
+  | mapKey {d s : Fields} {k : String} {e v : Val} :
+      fhasBool s "$replace" true = false →
+      fget s k = some v → v ≠ .str "$delete" → fget d k = some e → Rejects e v →
+      Rejects (.map d) (.map s)
+  /-- a `{$replace: true, …}` list entry carrying extra keys -/
+  | listReplaceExtraKeys {d s : List Val} {m : Fields} :
+      Val.str "$replace" ∉ s → Val.map m ∈ s → fhasBool m "$replace" true = true →
+      fdel m "$replace" ≠ [] → Rejects (.list d) (.list s)
+  /-- no replace directive: some entry of the patch is rejected when its turn comes -/
+  | listWalk {d s : List Val} :
+      Val.str "$replace" ∉ s → (∀ m, Val.map m ∈ s → fhasBool m "$replace" true = false) →
+      RejectsEntries (dropRequired d) s → Rejects (.list d) (.list s)
+
+/-- `RejectsEntries acc patch`: applying the entries of `patch` left to right to the list `acc`
+    built so far hits a rejected entry. -/
+inductive RejectsEntries : List Val → List Val → Prop
+  /-- a plain entry (no `$delete`, no `$match`) is appended; the rejection is further right -/
+  | skip {d rest : List Val} {v : Val} :
+      (∀ kvs, v = .map kvs → fget kvs "$delete" = none ∧ fget kvs "$match" = none) →
+      RejectsEntries (d ++ [v]) rest → RejectsEntries d (v :: rest)
+  /-- a `$delete` entry carrying extra keys -/
+  | deleteExtraKeys {d rest : List Val} {kvs : Fields} {pat : Val} :
+      fget kvs "$delete" = some pat → fdel kvs "$delete" ≠ [] →
+      RejectsEntries d (.map kvs :: rest)
+  /-- a `$delete` entry whose pattern matches nothing (at the point where it is applied) -/
+  | deleteNoMatch {d rest : List Val} {kvs : Fields} {pat : Val} :
+      fget kvs "$delete" = some pat → (∀ e ∈ d, matchV e pat = false) →
+      RejectsEntries d (.map kvs :: rest)
+  /-- a `$delete` entry removes the matching elements; the rejection is further right -/
+  | deleteNext {d rest : List Val} {kvs : Fields} {pat : Val} :
+      fget kvs "$delete" = some pat →
+      RejectsEntries (d.filter (fun e => !matchV e pat)) rest →
+      RejectsEntries d (.map kvs :: rest)
+  /-- a `$match` + `$value` entry carrying extra keys -/
+  | matchExtraKeys {d rest : List Val} {kvs : Fields} {m v2 : Val} :
+      fget kvs "$delete" = none → fget kvs "$match" = some m → fget kvs "$value" = some v2 →
+      fdel (fdel kvs "$match") "$value" ≠ [] → RejectsEntries d (.map kvs :: rest)
+  /-- a `$match` entry that matches nothing (at the point where it is applied) -/
+  | matchNone {d rest : List Val} {kvs : Fields} {m : Val} :
+      fget kvs "$delete" = none → fget kvs "$match" = some m →
+      (∀ e ∈ d, matchV e m = false) → RejectsEntries d (.map kvs :: rest)
+  /-- recursion through a matched element: it rejects the patch of the `$match` entry -/
+  | matchRec {d rest : List Val} {kvs : Fields} {m e : Val} :
+      fget kvs "$delete" = none → fget kvs "$match" = some m →
+      e ∈ d → matchV e m = true → Rejects e (matchPatch kvs) →
+      RejectsEntries d (.map kvs :: rest)
+  /-- a `$match` entry updates the matched elements (`d'` is `d` with every matched element
+      replaced by its merge with the patch); the rejection is further right -/
+  | matchNext {d d' rest : List Val} {kvs : Fields} {m : Val} :
+      fget kvs "$delete" = none → fget kvs "$match" = some m →
+      Pointwise (matchRel m (matchPatch kvs)) d d' → RejectsEntries d' rest →
+      RejectsEntries d (.map kvs :: rest)
+end
+
+/-- the list walk, given the boundary theorem for all patches smaller than `N` -/
+theorem C01_rejectsEntries_iff {N : Nat}
+    (IH : ∀ s : Val, sizeOf s < N → Val.WF s → ∀ d : Val,
+      ((∃ e, merge d s = .error e) ↔ Rejects d s)) :
+    ∀ s : List Val, (∀ x ∈ s, sizeOf x < N) → (∀ x ∈ s, Val.WF x) → ∀ d : List Val,
+      ((∃ e, mergeEntries d s = .error e) ↔ RejectsEntries d s) := by
+  intro s
+  induction s with
+  | nil =>
+    intro _ _ d
+    rw [mergeEntries_nil]
+    constructor
+    · rintro ⟨e, h⟩; cases h
+    · intro h; cases h
+  | cons v rest ih =>
+    intro hsz hwf d
+    have ihr := ih (fun x hx => hsz x (List.mem_cons_of_mem _ hx))
+      (fun x hx => hwf x (List.mem_cons_of_mem _ hx))
+    have skipCase : ∀ v' : Val,
+        (∀ kvs, v' = .map kvs → fget kvs "$delete" = none ∧ fget kvs "$match" = none) →
+        ((∃ e, mergeEntries d (v' :: rest) = .error e) ↔ RejectsEntries d (v' :: rest)) := by
+      intro v' hp
+      rw [mergeEntries_skip d rest hp, ihr]
+      constructor
+      · exact .skip hp
+      · intro h
+        cases h with
+        | skip _ h => exact h
+        | deleteExtraKeys h1 _ => have := (hp _ rfl).1; rw [h1] at this; cases this
+        | deleteNoMatch h1 _ => have := (hp _ rfl).1; rw [h1] at this; cases this
+        | deleteNext h1 _ => have := (hp _ rfl).1; rw [h1] at this; cases this
+        | matchExtraKeys _ h2 _ _ => have := (hp _ rfl).2; rw [h2] at this; cases this
+        | matchNone _ h2 _ => have := (hp _ rfl).2; rw [h2] at this; cases this
+        | matchRec _ h2 _ _ _ => have := (hp _ rfl).2; rw [h2] at this; cases this
+        | matchNext _ h2 _ _ => have := (hp _ rfl).2; rw [h2] at this; cases this
+    cases v with
+    | map kvs =>
+      cases hdel : fget kvs "$delete" with
+      | some pat =>
+        rw [mergeEntries_delete_error_iff d rest hdel]
+        constructor
+        · rintro (h | h | h)
+          · exact .deleteExtraKeys hdel h
+          · exact .deleteNoMatch hdel h
+          · exact .deleteNext hdel ((ihr _).1 h)
+        · intro h
+          cases h with
+          | skip hp _ => have := (hp _ rfl).1; rw [hdel] at this; cases this
+          | deleteExtraKeys _ h2 => exact Or.inl h2
+          | deleteNoMatch h1 h2 => rw [hdel] at h1; cases h1; exact Or.inr (Or.inl h2)
+          | deleteNext h1 h2 =>
+            rw [hdel] at h1; cases h1; exact Or.inr (Or.inr ((ihr _).2 h2))
+          | matchExtraKeys h1 _ _ _ => rw [hdel] at h1; cases h1
+          | matchNone h1 _ _ => rw [hdel] at h1; cases h1
+          | matchRec h1 _ _ _ _ => rw [hdel] at h1; cases h1
+          | matchNext h1 _ _ _ => rw [hdel] at h1; cases h1
+      | none =>
+        cases hm : fget kvs "$match" with
+        | none => exact skipCase _ (fun kvs' h => by cases h; exact ⟨hdel, hm⟩)
+        | some m =>
+          have hkw : Val.WF (.map kvs) := hwf _ List.mem_cons_self
+          have hksz : sizeOf (matchPatch kvs) < N :=
+            Nat.lt_of_le_of_lt (matchPatch_sizeOf kvs) (hsz _ List.mem_cons_self)
+          have IHp := IH (matchPatch kvs) hksz (matchPatch_wf hkw)
+          rw [mergeEntries_match_error_iff d rest hdel hm]
+          constructor
+          · rintro (⟨v2, h1, h2⟩ | h | ⟨e, he, hme, herr⟩ | ⟨d', hpw, h⟩)
+            · exact .matchExtraKeys hdel hm h1 h2
+            · exact .matchNone hdel hm h
+            · exact .matchRec hdel hm he hme ((IHp e).1 herr)
+            · exact .matchNext hdel hm hpw ((ihr d').1 h)
+          · intro h
+            cases h with
+            | skip hp _ => have := (hp _ rfl).2; rw [hm] at this; cases this
+            | deleteExtraKeys h1 _ => rw [hdel] at h1; cases h1
+            | deleteNoMatch h1 _ => rw [hdel] at h1; cases h1
+            | deleteNext h1 _ => rw [hdel] at h1; cases h1
+            | matchExtraKeys _ _ h3 h4 => exact Or.inl ⟨_, h3, h4⟩
+            | matchNone _ h2 h3 => rw [hm] at h2; cases h2; exact Or.inr (Or.inl h3)
+            | matchRec _ h2 he hme hr =>
+              rw [hm] at h2; cases h2
+              exact Or.inr (Or.inr (Or.inl ⟨_, he, hme, (IHp _).2 hr⟩))
+            | matchNext _ h2 hpw hr =>
+              rw [hm] at h2; cases h2
+              exact Or.inr (Or.inr (Or.inr ⟨_, hpw, (ihr _).2 hr⟩))
+    | _ => exact skipCase _ (fun kvs' h => by cases h)
+
+/-- induction on the size of the patch -/
+theorem C01_reject_iff_sized : ∀ (N : Nat) (s : Val), sizeOf s < N → Val.WF s → ∀ d : Val,
+    ((∃ e, merge d s = .error e) ↔ Rejects d s) := by
+  intro N
+  induction N with
+  | zero => intro s h; exact absurd h (Nat.not_lt_zero _)
+  | succ N IH =>
+    intro s hsz hs d
+    cases d with
+    | null =>
+      rw [merge_null]
+      constructor
+      · rintro ⟨e, h⟩; cases h
+      · intro h
+        cases h with
+        | sameScalar h => simp [Val.isScalar] at h
+    | map dm =>
+      cases s with
+      | map sm =>
+        rw [merge_map_map, mergeMapMap_error_iff (wf_map_iff.1 hs).1]
+        have hsub : ∀ {k v}, fget sm k = some v → sizeOf v < N ∧ Val.WF v := by
+          intro k v hk
+          have := sizeOf_lt_map_of_fget hk
+          exact ⟨by omega, wf_of_fget hs hk⟩
+        constructor
+        · rintro ⟨hrep, k, v, hk, h⟩
+          rcases h with ⟨rfl, hd⟩ | ⟨hne, e, he, herr⟩
+          · exact .mapDeleteAbsent hrep hk hd
+          · exact .mapKey hrep hk hne he ((IH v (hsub hk).1 (hsub hk).2 e).1 herr)
+        · intro h
+          cases h with
+          | sameScalar h => simp [Val.isScalar] at h
+          | overMap _ h => simp [Val.isScalar, Val.isList] at h
+          | mapDeleteAbsent hrep hk hd => exact ⟨hrep, _, _, hk, Or.inl ⟨rfl, hd⟩⟩
+          | mapKey hrep hk hne he hr =>
+            exact ⟨hrep, _, _, hk, Or.inr ⟨hne, _, he, (IH _ (hsub hk).1 (hsub hk).2 _).2 hr⟩⟩
+      | null =>
+        rw [merge_map_null]
+        constructor
+        · rintro ⟨e, h⟩; cases h
+        · intro h
+          cases h with
+          | overMap _ h => simp [Val.isScalar, Val.isList] at h
+      | _ =>
+        rw [merge_map_other _ _ rfl rfl]
+        cases dm with
+        | nil =>
+          constructor
+          · rintro ⟨e, h⟩; cases h
+          · intro h
+            cases h with
+            | overMap h _ => exact absurd rfl h
+        | cons p tl =>
+          exact ⟨fun _ => .overMap (by simp) (by simp [Val.isScalar, Val.isList]),
+            fun _ => ⟨_, rfl⟩⟩
+    | list dl =>
+      cases s with
+      | list sl =>
+        rw [merge_list_list, mergeListList_error_iff]
+        have hentries := C01_rejectsEntries_iff (N := N) IH sl
+          (fun x hx => by have := sizeOf_lt_list_of_mem hx; omega) (wf_list_iff.1 hs)
+        constructor
+        · rintro ⟨hnot, ⟨m, hm, h1, h2⟩ | ⟨hno, herr⟩⟩
+          · exact .listReplaceExtraKeys hnot hm h1 h2
+          · exact .listWalk hnot hno ((hentries _).1 herr)
+        · intro h
+          cases h with
+          | sameScalar h => simp [Val.isScalar] at h
+          | overList h => simp [Val.isScalar, Val.isMap] at h
+          | listReplaceExtraKeys hnot hm h1 h2 => exact ⟨hnot, Or.inl ⟨_, hm, h1, h2⟩⟩
+          | listWalk hnot hno hr => exact ⟨hnot, Or.inr ⟨hno, (hentries _).2 hr⟩⟩
+      | null =>
+        rw [merge_list_null]
+        constructor
+        · rintro ⟨e, h⟩; cases h
+        · intro h
+          cases h with
+          | overList h => simp [Val.isScalar, Val.isMap] at h
+      | _ =>
+        rw [merge_list_other _ _ rfl rfl]
+        exact ⟨fun _ => .overList (by simp [Val.isScalar, Val.isMap]), fun _ => ⟨_, rfl⟩⟩
+    | _ =>
+      rw [C01_scalar_reject_iff _ s rfl]
+      constructor
+      · rintro rfl; exact .sameScalar rfl
+      · intro h; cases h; rfl
+
+/-- **the accept / reject boundary**: `merge` returns an error exactly on `Rejects`.
+    Only the well-formedness of the child is used (`C01_reject_iff_of_src_wf`); it is needed:
+    see `C01_reject_iff_needs_src_wf`. -/
+theorem C01_reject_iff_of_src_wf {d s : Val} (hs : Val.WF s) :
+    (∃ e, merge d s = .error e) ↔ Rejects d s :=
+  C01_reject_iff_sized (sizeOf s + 1) s (Nat.lt_succ_self _) hs d
+
+theorem C01_reject_iff {d s : Val} (_hd : Val.WF d) (hs : Val.WF s) :
+    (∃ e, merge d s = .error e) ↔ Rejects d s :=
+  C01_reject_iff_of_src_wf hs
+
+/-- the same boundary for the list walk on its own -/
+theorem C01_reject_entries_iff {d s : List Val} (hs : Val.WF (.list s)) :
+    (∃ e, mergeEntries d s = .error e) ↔ RejectsEntries d s :=
+  C01_rejectsEntries_iff (N := sizeOf (Val.list s))
+    (fun s' h hw d' => C01_reject_iff_sized _ s' h hw d') s
+    (fun _ hx => sizeOf_lt_list_of_mem hx) (wf_list_iff.1 hs) d
+
+example : Val.WF (.map [("a", .int 1), ("b", .list [.int 1])]) ∧
+    Val.WF (.map [("b", .list [.map [("$delete", .int 2)]])]) := by decide
+
+/-- a child that is not rejected is accepted: `merge` is total off `Rejects` -/
+theorem C01_accept_total {d s : Val} (hd : Val.WF d) (hs : Val.WF s) (h : ¬ Rejects d s) :
+    ∃ r, merge d s = .ok r := by
+  cases hm : merge d s with
+  | ok r => exact ⟨r, rfl⟩
+  | error e => exact absurd ((C01_reject_iff hd hs).1 ⟨e, hm⟩) h
+
+/-- … and the result is well-formed -/
+theorem C01_accept_total_wf {d s : Val} (hd : Val.WF d) (hs : Val.WF s) (h : ¬ Rejects d s) :
+    ∃ r, merge d s = .ok r ∧ Val.WF r := by
+  obtain ⟨r, hr⟩ := C01_accept_total hd hs h
+  exact ⟨r, hr, C01_wf hd hs hr⟩
+
+/-- non-vacuity of `C01_accept_total`: a concrete accepted pair (`¬ Rejects` is established from
+    the successful merge through `C01_reject_iff`) -/
+example : Val.WF (.map [("a", .int 1)]) ∧ Val.WF (.map [("a", .int 2)]) ∧
+    ¬ Rejects (.map [("a", .int 1)]) (.map [("a", .int 2)]) := by
+  refine ⟨by decide, by decide, fun h => ?_⟩
+  obtain ⟨e, he⟩ := (C01_reject_iff_of_src_wf (by decide)).2 h
+  simp [merge, mergeMapMap, mergeFields, fhasBool, fget, fset, Val.toStr] at he
+  cases he
+
+/-- `$replace: true` in a map patch: nothing below it is ever rejected -/
+theorem C01_replace_true_never_rejects (d s : Fields) (h : fhasBool s "$replace" true = true) :
+    ¬ Rejects (.map d) (.map s) := by
+  intro hr
+  cases hr with
+  | sameScalar h' => simp [Val.isScalar] at h'
+  | overMap _ h' => simp [Val.isScalar, Val.isList] at h'
+  | mapDeleteAbsent h' _ _ => rw [h] at h'; cases h'
+  | mapKey h' _ _ _ _ => rw [h] at h'; cases h'
+
+example : fhasBool [("$replace", .bool true), ("a", .int 1)] "$replace" true = true := by decide
+
+/-- a `"$replace"` string in a list patch: nothing in it is ever rejected -/
+theorem C01_replace_string_never_rejects (d s : List Val) (h : Val.str "$replace" ∈ s) :
+    ¬ Rejects (.list d) (.list s) := by
+  intro hr
+  cases hr with
+  | sameScalar h' => simp [Val.isScalar] at h'
+  | overList h' => simp [Val.isScalar, Val.isMap] at h'
+  | listReplaceExtraKeys h' _ _ _ => exact h' h
+  | listWalk h' _ _ => exact h' h
+
+example : Val.str "$replace" ∈ [Val.map [("$delete", .int 9)], .str "$replace"] := by decide
+
+/-- the hypothesis `WF s` of `C01_reject_iff` cannot be dropped: a patch that repeats a key
+    (impossible for a decoded document) deletes it twice -/
+theorem C01_reject_iff_needs_src_wf :
+    (∃ e, merge (.map [("a", .int 1)]) (.map [("a", .str "$delete"), ("a", .str "$delete")])
+      = .error e) ∧
+    ¬ Rejects (.map [("a", .int 1)]) (.map [("a", .str "$delete"), ("a", .str "$delete")]) := by
+  constructor
+  · refine ⟨.uselessOverride, ?_⟩
+    simp [merge, mergeMapMap, mergeFields, fhasBool, fget, fdel, fhas, Val.toStr]
+    rfl
+  · intro h
+    cases h with
+    | overMap _ h' => simp [Val.isScalar, Val.isList] at h'
+    | @mapDeleteAbsent _ _ k _ h1 h2 =>
+      by_cases hk : "a" = k
+      · subst hk; simp [fget] at h2
+      · simp [fget, hk] at h1
+    | @mapKey _ _ k e v _ h1 h2 h3 _ =>
+      by_cases hk : "a" = k
+      · subst hk
+        simp [fget] at h1
+        exact h2 h1.symm
+      · simp [fget, hk] at h1
+
+/-! ### non-vacuity: every constructor of `Rejects` / `RejectsEntries` on concrete values,
+    together with the error the model returns -/
+
+example : Rejects (.int 3) (.int 3) ∧ merge (.int 3) (.int 3) = .error .uselessOverride :=
+  ⟨.sameScalar rfl, by simp [merge]; rfl⟩
+
+example : Rejects (.map [("a", .int 1)]) (.str "x") ∧
+    merge (.map [("a", .int 1)]) (.str "x") = .error .invalidType :=
+  ⟨.overMap (by simp) (Or.inl rfl), by simp [merge]; rfl⟩
+
+example : Rejects (.map [("a", .int 1)]) (.list []) ∧
+    merge (.map [("a", .int 1)]) (.list []) = .error .invalidType :=
+  ⟨.overMap (by simp) (Or.inr rfl), by simp [merge]; rfl⟩
+
+/-- even the empty map is rejected over a list -/
+example : Rejects (.list [.int 1]) (.map []) ∧
+    merge (.list [.int 1]) (.map []) = .error .invalidType :=
+  ⟨.overList (Or.inr rfl), by simp [merge]; rfl⟩
+
+example : Rejects (.list []) (.bool true) ∧ merge (.list []) (.bool true) = .error .invalidType :=
+  ⟨.overList (Or.inl rfl), by simp [merge]; rfl⟩
+
+example : Rejects (.map [("a", .int 1)]) (.map [("b", .str "$delete")]) ∧
+    merge (.map [("a", .int 1)]) (.map [("b", .str "$delete")]) = .error .uselessOverride :=
+  ⟨.mapDeleteAbsent (k := "b") (by decide) (by decide) (by decide),
+   by simp [merge, mergeMapMap, mergeFields, fhasBool, fget, fhas, Val.toStr]; rfl⟩
+
+/-- recursion through a key: the nested value is the same scalar -/
+example : Rejects (.map [("a", .map [("x", .int 1)])]) (.map [("a", .map [("x", .int 1)])]) ∧
+    merge (.map [("a", .map [("x", .int 1)])]) (.map [("a", .map [("x", .int 1)])])
+      = .error .uselessOverride :=
+  ⟨.mapKey (k := "a") (e := .map [("x", .int 1)]) (v := .map [("x", .int 1)])
+      (by decide) (by decide) (by decide) (by decide)
+      (.mapKey (k := "x") (e := .int 1) (v := .int 1) (by decide) (by decide) (by decide)
+        (by decide) (.sameScalar rfl)),
+   by simp [merge, mergeMapMap, mergeFields, fhasBool, fget, Val.toStr]; rfl⟩
+
+example : Rejects (.list []) (.list [.map [("$replace", .bool true), ("a", .int 1)]]) ∧
+    merge (.list []) (.list [.map [("$replace", .bool true), ("a", .int 1)]])
+      = .error .extraKeys :=
+  ⟨.listReplaceExtraKeys (m := [("$replace", .bool true), ("a", .int 1)])
+      (by decide) (by decide) (by decide) (by decide),
+   C01_list_extra_keys_replace _ _ [("$replace", .bool true), ("a", .int 1)]
+     (by decide) (by decide) (by decide) (by decide)⟩
+
+/-- `listWalk` + `deleteNoMatch` -/
+example : Rejects (.list [.int 1]) (.list [.map [("$delete", .int 2)]]) ∧
+    merge (.list [.int 1]) (.list [.map [("$delete", .int 2)]]) = .error .uselessOverride :=
+  ⟨.listWalk (by decide) (hasListMapBool_eq_false_iff.1 (by decide))
+      (.deleteNoMatch (pat := .int 2) (by decide) (by decide)),
+   by rw [C01_list_delete]; rfl⟩
+
+/-- `skip`: the rejected entry comes after a plain one (and `"$required"` markers of the parent
+    are dropped first) -/
+example : Rejects (.list [.str "$required", .int 1])
+      (.list [.int 5, .map [("$delete", .int 7)]]) ∧
+    (∃ e, merge (.list [.str "$required", .int 1]) (.list [.int 5, .map [("$delete", .int 7)]])
+      = .error e) := by
+  have h : Rejects (.list [.str "$required", .int 1])
+      (.list [.int 5, .map [("$delete", .int 7)]]) :=
+    .listWalk (by decide) (hasListMapBool_eq_false_iff.1 (by decide))
+      (.skip (fun kvs h => by cases h)
+        (.deleteNoMatch (pat := .int 7) (by decide) (by decide)))
+  exact ⟨h, (C01_reject_iff_of_src_wf (by decide)).2 h⟩
+
+/-- `deleteExtraKeys` -/
+example : Rejects (.list [.int 1]) (.list [.map [("$delete", .int 1), ("x", .int 2)]]) ∧
+    merge (.list [.int 1]) (.list [.map [("$delete", .int 1), ("x", .int 2)]])
+      = .error .extraKeys :=
+  ⟨.listWalk (by decide) (hasListMapBool_eq_false_iff.1 (by decide))
+      (.deleteExtraKeys (pat := .int 1) (by decide) (by decide)),
+   C01_list_extra_keys_delete _ [] [] _ (.int 1) (by decide) (by decide) (by decide) (by decide)
+     (by decide)⟩
+
+/-- `deleteNext`: the first `$delete` succeeds, the second then matches nothing -/
+example : RejectsEntries [.int 1, .int 2]
+      [.map [("$delete", .int 1)], .map [("$delete", .int 1)]] ∧
+    mergeEntries [.int 1, .int 2] [.map [("$delete", .int 1)], .map [("$delete", .int 1)]]
+      = .error .uselessOverride :=
+  ⟨.deleteNext (pat := .int 1) (by decide)
+      (.deleteNoMatch (pat := .int 1) (by decide) (by decide)),
+   by rw [mergeEntries_delete _ _ (del := .int 1) (by decide) (by decide), if_pos (by decide),
+        mergeEntries_delete _ _ (del := .int 1) (by decide) (by decide), if_neg (by decide)]⟩
+
+/-- `matchExtraKeys` -/
+example : Rejects (.list [.int 1])
+      (.list [.map [("$match", .int 1), ("$value", .int 2), ("x", .int 3)]]) ∧
+    merge (.list [.int 1]) (.list [.map [("$match", .int 1), ("$value", .int 2), ("x", .int 3)]])
+      = .error .extraKeys :=
+  ⟨.listWalk (by decide) (hasListMapBool_eq_false_iff.1 (by decide))
+      (.matchExtraKeys (m := .int 1) (v2 := .int 2) (by decide) (by decide) (by decide)
+        (by decide)),
+   C01_list_extra_keys_match _ [] [] _ (.int 1) (.int 2) (by decide) (by decide) (by decide)
+     (by decide) (by decide) (by decide) (by decide)⟩
+
+/-- `matchNone` -/
+example : Rejects (.list [.int 1]) (.list [.map [("$match", .int 2), ("$value", .int 3)]]) ∧
+    merge (.list [.int 1]) (.list [.map [("$match", .int 2), ("$value", .int 3)]])
+      = .error .noMatchFound :=
+  ⟨.listWalk (by decide) (hasListMapBool_eq_false_iff.1 (by decide))
+      (.matchNone (m := .int 2) (by decide) (by decide) (by decide)),
+   by rw [C01_list_match_value]; rfl⟩
+
+/-- `matchRec`: the matched element rejects the `$value` (same scalar) -/
+example : Rejects (.list [.int 1]) (.list [.map [("$match", .int 1), ("$value", .int 1)]]) ∧
+    merge (.list [.int 1]) (.list [.map [("$match", .int 1), ("$value", .int 1)]])
+      = .error .uselessOverride :=
+  ⟨.listWalk (by decide) (hasListMapBool_eq_false_iff.1 (by decide))
+      (.matchRec (m := .int 1) (e := .int 1) (by decide) (by decide) (by decide) (by decide)
+        (.sameScalar rfl)),
+   by rw [C01_list_match_value]
+      simp [matchV, merge, Except.map]
+      rfl⟩
+
+/-- `matchRec` without `$value`: the entry minus `$match` is merged into the matched map -/
+example : Rejects (.list [.map [("id", .int 1), ("x", .int 5)]])
+      (.list [.map [("$match", .map [("id", .int 1)]), ("x", .int 5)]]) := 
+  .listWalk (by decide) (hasListMapBool_eq_false_iff.1 (by decide))
+    (.matchRec (m := .map [("id", .int 1)]) (e := .map [("id", .int 1), ("x", .int 5)])
+      (by decide) (by decide) (by decide) (by decide)
+      (.mapKey (k := "x") (e := .int 5) (v := .int 5) (by decide) (by decide) (by decide)
+        (by decide) (.sameScalar rfl)))
+
+/-- `matchNext`: the first `$match` rewrites `1` to `2`, so the second one matches nothing -/
+example : RejectsEntries [.int 1]
+      [.map [("$match", .int 1), ("$value", .int 2)], .map [("$match", .int 1), ("$value", .int 3)]]
+    ∧ (∃ e, mergeEntries [.int 1]
+      [.map [("$match", .int 1), ("$value", .int 2)], .map [("$match", .int 1), ("$value", .int 3)]]
+      = .error e) := by
+  have hstep : Pointwise (matchRel (.int 1) (matchPatch [("$match", .int 1), ("$value", .int 2)]))
+      [.int 1] [.int 2] := by
+    refine .cons ?_ .nil
+    simp [matchRel, matchV, matchPatch, fget, merge]
+    rfl
+  have h : RejectsEntries [.int 1]
+      [.map [("$match", .int 1), ("$value", .int 2)],
+       .map [("$match", .int 1), ("$value", .int 3)]] :=
+    .matchNext (m := .int 1) (by decide) (by decide) hstep
+      (.matchNone (m := .int 1) (by decide) (by decide) (by decide))
+  refine ⟨h, .noMatchFound, ?_⟩
+  rw [mergeEntries_match_value _ _ (m := .int 1) (v2 := .int 2) (by decide) (by decide)
+    (by decide) (by decide)]
+  simp [matchStep, matchV, merge]
+  show mergeEntries [Val.int 2] [Val.map [("$match", Val.int 1), ("$value", Val.int 3)]] = _
+  rw [mergeEntries_match_value _ _ (m := .int 1) (v2 := .int 3) (by decide) (by decide)
+    (by decide) (by decide)]
+  simp [matchStep, matchV]
+  rfl
+
+/-! ## 11. layers that touch different keys commute -/
+
+/-- Success values agree in both orders: for key-sorted maps `d`, `s1`, `s2` where the patches
+    share no key and neither is a `$replace: true` patch, `s1` then `s2` yields `r` iff `s2`
+    then `s1` yields `r`.  (`$delete` values and nested directives are allowed.) -/
+theorem C01_merge_assoc_frame_ok {d s1 s2 : Fields} (hd : Fields.SortedKeys d)
+    (hs1 : Fields.SortedKeys s1) (hs2 : Fields.SortedKeys s2)
+    (hr1 : fhasBool s1 "$replace" true = false) (hr2 : fhasBool s2 "$replace" true = false)
+    (hdisj : ∀ k, fget s1 k = none ∨ fget s2 k = none) (r : Val) :
+    (merge (.map d) (.map s1) >>= fun x => merge x (.map s2)) = .ok r ↔
+    (merge (.map d) (.map s2) >>= fun x => merge x (.map s1)) = .ok r := by
+  rw [merge_two_layers hr1 hr2, merge_two_layers hr2 hr1]
+  constructor
+  · rintro ⟨r1, r12, h1, h12, rfl⟩
+    obtain ⟨r2, h2, h21⟩ := mergeFields_comm_ok hd hs1 hs2 hdisj h1 h12
+    exact ⟨r2, r12, h2, h21, rfl⟩
+  · rintro ⟨r2, r21, h2, h21, rfl⟩
+    obtain ⟨r1, h1, h12⟩ := mergeFields_comm_ok hd hs2 hs1 (fun k => (hdisj k).symm) h2 h21
+    exact ⟨r1, r21, h1, h12, rfl⟩
+
+/-- … hence the two orders are rejected together -/
+theorem C01_merge_assoc_frame_reject {d s1 s2 : Fields} (hd : Fields.SortedKeys d)
+    (hs1 : Fields.SortedKeys s1) (hs2 : Fields.SortedKeys s2)
+    (hr1 : fhasBool s1 "$replace" true = false) (hr2 : fhasBool s2 "$replace" true = false)
+    (hdisj : ∀ k, fget s1 k = none ∨ fget s2 k = none) :
+    (∃ e, (merge (.map d) (.map s1) >>= fun x => merge x (.map s2)) = .error e) ↔
+    (∃ e, (merge (.map d) (.map s2) >>= fun x => merge x (.map s1)) = .error e) := by
+  have key := C01_merge_assoc_frame_ok hd hs1 hs2 hr1 hr2 hdisj
+  cases hA : (merge (.map d) (.map s1) >>= fun x => merge x (.map s2)) with
+  | ok r =>
+    rw [(key r).1 hA]
+  | error e =>
+    cases hB : (merge (.map d) (.map s2) >>= fun x => merge x (.map s1)) with
+    | ok r => rw [(key r).2 hB] at hA; cases hA
+    | error e' => exact ⟨fun _ => ⟨e', rfl⟩, fun _ => ⟨e, rfl⟩⟩
+
+/-- The full statement (equality of the two `Except` results) is FALSE: when both patches are
+    rejected, the *error class* reported is that of whichever patch is applied first. -/
+theorem C01_merge_assoc_frame_false :
+    ∃ d s1 s2 : Fields, Fields.SortedKeys d ∧ Fields.SortedKeys s1 ∧ Fields.SortedKeys s2 ∧
+      fhasBool s1 "$replace" true = false ∧ fhasBool s2 "$replace" true = false ∧
+      (∀ k, fget s1 k = none ∨ fget s2 k = none) ∧
+      (merge (.map d) (.map s1) >>= fun x => merge x (.map s2)) = .error .uselessOverride ∧
+      (merge (.map d) (.map s2) >>= fun x => merge x (.map s1)) = .error .invalidType := by
+  refine ⟨[("a", .int 1), ("b", .map [("x", .int 1)])], [("a", .int 1)], [("b", .int 5)],
+    by decide, by decide, by decide, by decide, by decide, ?_, ?_, ?_⟩
+  · intro k
+    by_cases hk : "a" = k
+    · right; subst hk; decide
+    · left; simp [fget, hk]
+  · simp [merge, mergeMapMap, mergeFields, fhasBool, fget, Val.toStr]
+    rfl
+  · simp [merge, mergeMapMap, mergeFields, fhasBool, fget, Val.toStr]
+    rfl
+
+/-- The strongest true form of the equality: the two orders give the same `Except` result unless
+    both are rejected with different error classes (exactly the class of
+    `C01_merge_assoc_frame_false`). -/
+theorem C01_merge_assoc_frame_partial {d s1 s2 : Fields} (hd : Fields.SortedKeys d)
+    (hs1 : Fields.SortedKeys s1) (hs2 : Fields.SortedKeys s2)
+    (hr1 : fhasBool s1 "$replace" true = false) (hr2 : fhasBool s2 "$replace" true = false)
+    (hdisj : ∀ k, fget s1 k = none ∨ fget s2 k = none)
+    (hcls : ∀ e1 e2, (merge (.map d) (.map s1) >>= fun x => merge x (.map s2)) = .error e1 →
+      (merge (.map d) (.map s2) >>= fun x => merge x (.map s1)) = .error e2 → e1 = e2) :
+    (merge (.map d) (.map s1) >>= fun x => merge x (.map s2)) =
+    (merge (.map d) (.map s2) >>= fun x => merge x (.map s1)) := by
+  have key := C01_merge_assoc_frame_ok hd hs1 hs2 hr1 hr2 hdisj
+  cases hA : (merge (.map d) (.map s1) >>= fun x => merge x (.map s2)) with
+  | ok r => rw [(key r).1 hA]
+  | error e =>
+    cases hB : (merge (.map d) (.map s2) >>= fun x => merge x (.map s1)) with
+    | ok r => rw [(key r).2 hB] at hA; cases hA
+    | error e' => rw [hcls e e' hA hB]
+
+/-- non-vacuity: disjoint patches (one deletes, one recurses into a nested map) over a base,
+    with the common result -/
+example : Fields.SortedKeys [("a", .int 1), ("b", .map [("x", .int 1)])] ∧
+    Fields.SortedKeys [("a", .str "$delete")] ∧
+    Fields.SortedKeys [("b", .map [("x", .int 2)]), ("c", .int 3)] ∧
+    fhasBool [("a", .str "$delete")] "$replace" true = false ∧
+    fhasBool [("b", .map [("x", .int 2)]), ("c", .int 3)] "$replace" true = false ∧
+    (∀ k, fget [("a", .str "$delete")] k = none ∨
+      fget [("b", .map [("x", .int 2)]), ("c", .int 3)] k = none) ∧
+    (merge (.map [("a", .int 1), ("b", .map [("x", .int 1)])]) (.map [("a", .str "$delete")])
+      >>= fun x => merge x (.map [("b", .map [("x", .int 2)]), ("c", .int 3)]))
+      = .ok (.map [("b", .map [("x", .int 2)]), ("c", .int 3)]) := by
+  refine ⟨by decide, by decide, by decide, by decide, by decide, ?_, ?_⟩
+  · intro k
+    by_cases hk : "a" = k
+    · right; subst hk; decide
+    · left; simp [fget, hk]
+  · simp [merge, mergeMapMap, mergeFields, fhasBool, fget, fset, fdel, fhas, Val.toStr]
     rfl
 
 end Bkl
